@@ -106,10 +106,17 @@ for _k, _op in (("le", "<="), ("ge", ">="), ("ne", "/="), ("eq", "=="), ("lt", "
         "  l = %s\n" % (("any(b %s (" % o) * d + "c" + "))" * d)))
 FAMILIES["intrinsic_arg_keyword"] = (2, lambda d: wrap("  x = " + "abs(a = (" * d + "b" + "))" * d + "\n"))
 FAMILIES["call_intrinsic_arg_le"] = (2, lambda d: wrap("  call sub(" + "any(b <= (" * d + "c" + "))" * d + ")\n"))
+# nests of intrinsic function references (linear on the pinned tree, unlike user-function nests)
+FAMILIES["intrinsic_nest_generic"] = (2, lambda d: wrap("  x = " + "sin(" * d + "b" + ")" * d + "\n"))
+FAMILIES["intrinsic_nest_specific"] = (2, lambda d: wrap("  x = " + "dsqrt(" * d + "b" + ")" * d + "\n"))
+FAMILIES["intrinsic_nest_mixed"] = (2, lambda d: wrap(
+    "  x = " + "".join(("dsqrt(", "Dabs(", "alog(", "SNGL(", "float(")[k % 5] for k in range(d)) + "b" + ")" * d + "\n"))
+FAMILIES["intrinsic_nest_two_args"] = (2, lambda d: wrap("  x = " + "amax1(c, " * d + "b" + ")" * d + "\n"))
+FAMILIES["intrinsic_nest_f2008"] = (2, lambda d: wrap("  x = " + "erf(gamma(" * d + "b" + "))" * d + "\n"), ("f2008",))
 FAMILIES["if_cond_paren_and"] = (2, lambda d: wrap("  if (" + "(m .and. " * d + "m" + ")" * d + ") x = 1\n"))
 
 EXPR_NEST = tuple(k for k in FAMILIES if k.startswith(("paren_right_", "paren_left_", "if_cond_paren", "intrinsic_arg_",
-                                                        "call_intrinsic_arg"))) + ("parens", "signed_parens", "plus_signed", "signed_sum", "not_parens", "call_nest", "index_nest",
+                                                        "call_intrinsic_arg", "intrinsic_nest_"))) + ("parens", "signed_parens", "plus_signed", "signed_sum", "not_parens", "call_nest", "index_nest",
              "mixed_nest", "array_ctor_nest")
 # recorded findings (KNOWN_FINDINGS.txt): families that are exponential on the pinned tree.  They stay in the
 # catalogue (signature growth:<family>) so that the finding is re-confirmed on every run.
